@@ -83,6 +83,7 @@ type Step struct {
 	WdIDs   []uint32 `json:"wd_ids,omitempty"`  // their path identifiers (add-path)
 	Attr   *AttrSpec `json:"attr,omitempty"`
 	ForceMP bool    `json:"force_mp,omitempty"`
+	AlsoNH  bool    `json:"also_nh,omitempty"` // multiprotocol UPDATE that carries a NEXT_HOP attribute as well (to be ignored, RFC 4760 3)
 	Policy *PolicySpec `json:"policy,omitempty"`
 	On     bool     `json:"on,omitempty"`
 	N      int      `json:"n,omitempty"`
